@@ -299,6 +299,9 @@ fn compound_command_program_header(
         // If true, we start with the root node.
         let mut node = if root_command.is_some() { root } else { header };
 
+        // The path of a single-level header is the node it is resolved from.
+        header = node;
+
         let (i2, res) = program_mnemonic(i1)?;
         let name = str::from_utf8(res)?;
         node = node.child(name).ok_or(Error::UndefinedHeader)?;
